@@ -1,15 +1,18 @@
 ----------------------------- MODULE DurCommon -----------------------------
 (* C08, shared definitions of the design specs DurParse / DurFormat (pass M, Apalache).
-   Apalache integers are unbounded, so int64 arithmetic is written out explicitly:
-   every Go operation on time.Duration is followed by Wrap.                          *)
+   Apalache integers are unbounded, so Go's fixed-width arithmetic is written out explicitly:
+   every int64 operation is followed by Wrap, every uint64 operation by WrapU.           *)
 EXTENDS Integers
 
 TwoTo63 == 9223372036854775808
 TwoTo64 == 18446744073709551616
 MinI64  == -TwoTo63
 MaxI64  == TwoTo63 - 1
-\* two's complement reduction of a mathematical integer into int64
+MaxU64  == TwoTo64 - 1
+\* two's complement reduction of a mathematical integer into int64 (also: uint64 -> int64 conversion)
 Wrap(x)  == ((x + TwoTo63) % TwoTo64) - TwoTo63
+\* reduction into uint64
+WrapU(x) == x % TwoTo64
 Fits64(x) == MinI64 <= x /\ x <= MaxI64
 Abs(x) == IF x < 0 THEN -x ELSE x
 
